@@ -3,6 +3,152 @@ open Lean (Json)
 namespace FtDriver
 open Ft
 
-def handleC03 (_j : Json) : Except String Verdict := throw "C03: not implemented"
+/-- finite map point ↦ value (default elsewhere): the abstract spec state -/
+abbrev PMap := List (List Int × Int)
+
+def PMap.get (m : PMap) (dflt : Int) (p : List Int) : Int := (clookup m p).getD dflt
+def PMap.set (m : PMap) (p : List Int) (v : Int) : PMap := (p, v) :: m.filter (fun e => e.1 != p)
+/-- canonical form: non-default entries, sorted lexicographically -/
+def PMap.canon (m : PMap) (dflt : Int) : PMap :=
+  let l := m.filter (fun e => e.2 != dflt)
+  (l.toArray.qsort (fun a b => a.1 < b.1)).toList
+
+def stripPrefix : List Int → List Int → Option (List Int)
+  | [], p => some p
+  | _ :: _, [] => none
+  | a :: q, b :: p => if a = b then stripPrefix q p else none
+
+/-- is the full path stored? (for getPayload with caller default / allocate=False) -/
+def pathStored : (d : Nat) → T d → List Int → Bool
+  | 0, _, _ => true
+  | _ + 1, _, [] => false
+  | d + 1, f, c :: cs =>
+    match posLookup (show List (Int × T d) from f) c with
+    | some s => pathStored d s cs
+    | none => false
+
+structure PState (d : Nat) where
+  tree : T d
+  spec : PMap
+  okAgree : Bool := true
+  okSpec : Bool := true
+  why : String := ""
+  tags : List String := []
+
+def jsonEqInt (j : Json) (v : Int) : Bool := match j.getInt? with | .ok x => x == v | _ => false
+
+def optTreeJson (d : Nat) (q : List Int) (t : T d) (dflt : Int) : Json :=
+  -- sub-tree reached by prefix q as JSON (depth d - |q|); computed by repeated lookup
+  let rec go : (d : Nat) → T d → List Int → Json
+    | 0, v, _ => jInt (show Int from v)
+    | d + 1, f, [] => treeToJson (d + 1) f
+    | d + 1, f, c :: cs =>
+      match posLookup (show List (Int × T d) from f) c with
+      | some s => go d s cs
+      | none => go d (defaultTree dflt d) cs
+  go d t q
+
+def contentOfJson (dflt : Int) : (d : Nat) → Json → Except String PMap
+  | d, j => do let t ← parseTree d j; pure (content dflt d t)
+
+def stepC03 (dflt : Int) (d : Nat) (st : PState d) (op : Json) (obs : Json) : Except String (PState d) := do
+  let k ← fStr op "k"
+  let p ← asInts (← field op "p")
+  let out ← field obs "out"
+  let snapJ ← field obs "snap"
+  let snap ← parseTree d snapJ
+  let fail (st : PState d) (agree : Bool) (msg : String) : PState d :=
+    if agree then { st with okSpec := false, why := if st.why.isEmpty then msg else st.why }
+    else { st with okAgree := false, why := if st.why.isEmpty then msg else st.why }
+  -- model step
+  let (mtree, mout, sspec, sout) ← (match k with
+    | "get" => pure (st.tree, jInt (getLeaf dflt d st.tree p), st.spec, jInt (st.spec.get dflt p))
+    | "getd" => do
+      let v ← fInt op "v"
+      let stored := pathStored d st.tree p
+      -- spec: the value written there if the path was ever created, else the caller's default
+      pure (st.tree, jInt (if stored then getLeaf dflt d st.tree p else v), st.spec,
+            jInt (if stored then st.spec.get dflt p else v))
+    | "getprefix" => pure (st.tree, optTreeJson d p st.tree dflt, st.spec, Json.null)
+    | "ref" =>
+      let t' := refAt dflt d st.tree p
+      pure (t', jInt (getLeaf dflt d t' p), st.spec, jInt (st.spec.get dflt p))
+    | "assign" => do
+      let v ← fInt op "v"
+      let t' := updateAt (fun _ => v) d (refAt dflt d st.tree p) p
+      pure (t', jInt (getLeaf dflt d t' p), st.spec.set p v, jInt v)
+    | "iadd" => do
+      let v ← fInt op "v"
+      let t' := updateAt (fun x => x + v) d (refAt dflt d st.tree p) p
+      let nv := st.spec.get dflt p + v
+      pure (t', jInt (getLeaf dflt d t' p), st.spec.set p nv, jInt nv)
+    | "posref" =>
+      match d, st.tree, snap with
+      | d' + 1, tr, sn =>
+        let c := p.headD 0
+        let t' := refAt dflt (d' + 1) tr [c]
+        let idx := lowerBound (show List (Int × T d') from tr) c
+        let sidx := ((show List (Int × T d') from sn).zipIdx.find? (fun e => e.1.1 = c)).map (·.2)
+        pure (t', jNat idx, st.spec, match sidx with | some i => jNat i | none => Json.null)
+      | 0, _, _ => throw "posref at depth 0"
+    | _ => throw s!"C03: unknown op kind {k}")
+  let mut st' := { st with tree := mtree, spec := sspec, tags := if st.tags.contains k then st.tags else k :: st.tags }
+  -- agreement: output and tree after the step
+  if !(treeEq d mtree snap) then st' := fail st' false s!"tree after {k} {p} differs from model"
+  if k == "getprefix" then
+    if mout.compress != out.compress then st' := fail st' false s!"getprefix {p}: model {mout.compress} impl {out.compress}"
+    -- spec: content of the returned sub-tree = the contents under the prefix
+    let sub ← contentOfJson dflt (d - p.length) out
+    let expect := (content dflt d snap).filterMap (fun e => (stripPrefix p e.1).map (fun r => (r, e.2)))
+    if !(decide (sub = expect)) then st' := fail st' true s!"getprefix {p}: sub-fiber content is not the content under the prefix"
+  else
+    if mout.compress != out.compress then st' := fail st' false s!"{k} {p}: model {mout.compress} impl {out.compress}"
+    if sout.compress != out.compress then st' := fail st' true s!"{k} {p}: abstract map says {sout.compress}, impl {out.compress}"
+  -- spec: the implementation's tree is well-formed and represents the abstract map
+  if !(wfB d snap) then st' := fail st' true s!"tree after {k} {p} is not well-formed"
+  if !(decide ((content dflt d snap : PMap) = sspec.canon dflt)) then
+    st' := fail st' true s!"content after {k} {p} is not the abstract map"
+  pure st'
+
+def handlePoints (j : Json) : Except String Verdict := do
+  let d ← fNat j "d"
+  let dflt := fIntD j "dflt" 0
+  let t ← fTree j "t" d
+  if d == 0 || !wfB d t then return { agree := true, spec := true, tags := ["OUT_OF_MODEL"] }
+  let ops ← fArr j "ops"
+  let impl ← fArr j "impl"
+  if ops.length != impl.length then throw "C03: ops/impl length mismatch"
+  let mut st : PState d := { tree := t, spec := content dflt d t }
+  for (op, obs) in ops.zip impl do
+    st ← stepC03 dflt d st op obs
+  let tags := st.tags ++ (if !canonicalB dflt d t then ["residue"] else [])
+  pure { agree := st.okAgree, spec := st.okSpec, model := treeToJson d st.tree, tags, why := st.why }
+
+/-- positions in a single fiber, with optional start_pos -/
+def handlePos (j : Json) : Except String Verdict := do
+  let f ← fTree j "t" 1
+  let l := (show List (Int × T 0) from f)
+  if !sortedB l then return { agree := true, spec := true, tags := ["OUT_OF_MODEL"] }
+  let c ← fInt j "c"
+  let sp := (fInt j "sp").toOption
+  let impl ← field j "impl"          -- position or null
+  let legal := match sp with | some s => legalStart l s.toNat c | none => true
+  if !legal then return { agree := true, spec := true, tags := ["illegal-start"] }
+  -- model: the code's search (linear from sp, else lower bound), then the existence test
+  let idx := match sp with | some s => coord2posFrom l s.toNat c | none => lowerBound l c
+  let m : Option Nat := match l[idx]? with | some e => if e.1 = c then some idx else none | none => none
+  -- spec: the index of the element with coordinate c, if any (independent of sp)
+  let s : Option Nat := (l.zipIdx.find? (fun e => e.1.1 = c)).map (·.2)
+  let io : Option Nat := match impl.getNat? with | .ok n => some n | _ => none
+  let isNull := impl.isNull
+  let okShape := isNull || io.isSome
+  pure { agree := okShape && (m == io), spec := okShape && (s == io), model := posJson m,
+         tags := (if sp.isSome then ["start_pos"] else []) ++ (if s.isSome then ["found"] else ["absent"]) }
+
+def handleC03 (j : Json) : Except String Verdict := do
+  match (← fStr j "op") with
+  | "points" => handlePoints j
+  | "pos" => handlePos j
+  | o => throw s!"C03: unknown op {o}"
 
 end FtDriver
